@@ -18,7 +18,13 @@ def check(run):
     for ev, extra in rejected:
         clause = extra[0] if extra else "?"
         hb = dp.header_bits(ev["hex"])
-        sig = {"clause": clause, "df": hb["df"], "tc": hb["tc"], "subtype": hb["subtype"]}
+        # which variant serde meets is decided by DF / type code / subtype; the identity entries by the DF
+        if clause == "serialises":
+            sig = {"clause": clause, "df": hb["df"], "tc": hb["tc"], "subtype": hb["subtype"]}
+        elif clause in ("df", "icao24", "frame"):
+            sig = {"clause": clause, "df": hb["df"]}
+        else:
+            sig = {"clause": clause, "df": hb["df"], "tc": hb["tc"]}
         per[(clause, hb["df"], hb["tc"], hb["subtype"])] += 1
         run.report(sig, {"frame_hex": ev["hex"], "shape": ev["cls"], "index": ev["i"], "clause": clause, "first3": hb["first3"],
                          "serde_error": ev.get("err", ""),
